@@ -12,12 +12,12 @@ import (
 // outcome and the term of every element; the harness executes each case on
 // the real library with several float64 assignments.
 type symSpec struct {
-	module          string
-	partsQ, partsT  int
-	assignQ, assignT int
+	module             string
+	partsQ, partsT     int
+	assignQ, assignT   int
 	timeoutQ, timeoutT time.Duration
-	rule            string
-	assumptions     []string
+	rule               string
+	assumptions        []string
 }
 
 var symAssumptions = []string{
@@ -68,17 +68,17 @@ func init() {
 	}))
 	register("C06", "exploration", symCheck(symSpec{
 		module: "Gen_C06", partsQ: 4, partsT: 16, assignQ: 1, assignT: 2, timeoutT: 40 * time.Minute,
-		rule: "one case per (data-movement operation, shape, argument): Slice / Patch with every combination of explicit / omitted / <<0,0>> / whole ranges, block size and position (full product up to rank 2 (3 thorough), one dimension varied above), Concat (every dim, 2 and 3 operands of differing sizes), Reshape (every factorisation), Flatten/Squeeze/UnSqueeze (every dim), Broadcast (every target in the expansion grid), Full/Zeros/Ones/Eye, patch-slice and concat-slice round trips; every tensor is read back through At at every multi-index and compared exactly with iota inputs; distinct = distinct (op, shapes, argument)",
+		rule:        "one case per (data-movement operation, shape, argument): Slice / Patch with every combination of explicit / omitted / <<0,0>> / whole ranges, block size and position (full product up to rank 2 (3 thorough), one dimension varied above), Concat (every dim, 2 and 3 operands of differing sizes), Reshape (every factorisation), Flatten/Squeeze/UnSqueeze (every dim), Broadcast (every target in the expansion grid), Full/Zeros/Ones/Eye, patch-slice and concat-slice round trips; every tensor is read back through At at every multi-index and compared exactly with iota inputs; distinct = distinct (op, shapes, argument)",
 		assumptions: []string{"element values are the row-major positions (the operations are value-parametric), compared exactly"},
 	}))
 	register("C02", "exploration", symCheck(symSpec{
 		module: "Gen_C02", partsQ: 8, partsT: 16, assignQ: 8, assignT: 20, timeoutT: 60 * time.Minute,
-		rule: "one case per (operation, operand shapes, argument, subset of tracked operands) for the 33 differentiable operations other than Broadcast: y = op(operands), z = y*g with an untracked weighting g, BackPropagate(z); expected gradients are d(sum z)/d(operand) by symbolic differentiation of the operation's definition (no backward rule in the spec); quick grid: Shapes(2,2)+5 shapes up to rank 5 (element-wise ops on 4 shapes), all dims, Slice/Patch index forms (full product to rank 2), Concat 2-3 operands; thorough: Shapes(3,3) U Shapes(5,2); values restricted to each operation's differentiability domain (no max/min ties, x>0 for Log and fractional powers, base 0 included for exponents 0,1,2); distinct = distinct (op, shapes, argument, tracked subset); non-trivial = more than one element",
+		rule:        "one case per (operation, operand shapes, argument, subset of tracked operands) for the 33 differentiable operations other than Broadcast: y = op(operands), z = y*g with an untracked weighting g, BackPropagate(z); expected gradients are d(sum z)/d(operand) by symbolic differentiation of the operation's definition (no backward rule in the spec); quick grid: Shapes(2,2)+5 shapes up to rank 5 (element-wise ops on 4 shapes), all dims, Slice/Patch index forms (full product to rank 2), Concat 2-3 operands; thorough: Shapes(3,3) U Shapes(5,2); values restricted to each operation's differentiability domain (no max/min ties, x>0 for Log and fractional powers, base 0 included for exponents 0,1,2); distinct = distinct (op, shapes, argument, tracked subset); non-trivial = more than one element",
 		assumptions: []string{"an arbitrary upstream weighting is realised as BackPropagate(y.Mul(g)) with g untracked"},
 	}))
 	register("C07", "exploration", symCheck(symSpec{
 		module: "Gen_C07", partsQ: 8, partsT: 16, assignQ: 6, assignT: 12, timeoutT: 60 * time.Minute,
-		rule: "explicit Broadcast: every source shape x every target of the expansion grid (leading dims added, size-1 dims expanded, both, factor 1); implicit expansion: Add/Sub/Mul/Div over every broadcast-compatible ordered pair of different shapes, Dot and MatMul over compatible batch shapes, every non-empty subset of tracked operands; z = y*g, BackPropagate(z); expected = sum of upstream gradient over copies (by differentiation of the definition); each case with factor > 1 also carries the gradient under the recorded deviation broadcast_grad_mean (want / factor) and is classified as that known finding only if it matches it exactly; distinct = distinct (op, shapes, tracked subset)",
+		rule:        "explicit Broadcast: every source shape x every target of the expansion grid (leading dims added, size-1 dims expanded, both, factor 1); implicit expansion: Add/Sub/Mul/Div over every broadcast-compatible ordered pair of different shapes, Dot and MatMul over compatible batch shapes, every non-empty subset of tracked operands; z = y*g, BackPropagate(z); expected = sum of upstream gradient over copies (by differentiation of the definition); each case with factor > 1 also carries the gradient under the recorded deviation broadcast_grad_mean (want / factor) and is classified as that known finding only if it matches it exactly; distinct = distinct (op, shapes, tracked subset)",
 		assumptions: []string{"known finding D2 (known_findings.json): cases matching the deviation's prediction are counted as the finding, anything else is a violation"},
 	}))
 	register("C12", "exploration", symCheck(symSpec{
@@ -87,7 +87,7 @@ func init() {
 	}))
 	register("C13", "exploration", symCheck(symSpec{
 		module: "Gen_C13", partsQ: 4, partsT: 8, assignQ: 30, assignT: 150,
-		rule: "loss x shape x {prediction leaf / target tracked variants, prediction = x.Scale(1/2).Add(d), prediction = FC->Sigmoid->BCE, FC->Tanh->MSE, FC->Softmax->CE}: BackPropagate(loss), gradient of the prediction and of everything upstream compared with the derivative of the loss definition (closed forms checked by TLC on rational instances); predictions include exactly 0 and 1 and values within 1e-12 of the bounds (the two bounds themselves excluded as in the statement); untracked inputs must have no gradient; FC cases with batch > 1 carry the asis expectation of finding D2; distinct = distinct program",
+		rule:        "loss x shape x {prediction leaf / target tracked variants, prediction = x.Scale(1/2).Add(d), prediction = FC->Sigmoid->BCE, FC->Tanh->MSE, FC->Softmax->CE}: BackPropagate(loss), gradient of the prediction and of everything upstream compared with the derivative of the loss definition (closed forms checked by TLC on rational instances); predictions include exactly 0 and 1 and values within 1e-12 of the bounds (the two bounds themselves excluded as in the statement); untracked inputs must have no gradient; FC cases with batch > 1 carry the asis expectation of finding D2; distinct = distinct program",
 		assumptions: []string{"known finding D2 reaches this property only through FC / Softmax upstream of the loss (known_findings.json)"},
 	}))
 	register("C14", "exploration", symCheck(symSpec{
@@ -96,12 +96,12 @@ func init() {
 	}))
 	register("C15", "exploration", symCheck(symSpec{
 		module: "Gen_C15", partsQ: 4, partsT: 16, assignQ: 12, assignT: 40,
-		rule: "activation x shape x {input is a leaf, input is the interior tensor x.Scale(3)} x parameter (slopes, every Softmax dim), z = act(x)*g, BackPropagate(z); gradient of the input (and of the leaf upstream) compared with the derivative of the activation's definition; at exactly 0 Relu/LeakyRelu accept any value between the one-sided derivatives; Softmax closed form checked by TLC; Softmax cases carry the asis expectation of finding D2; distinct = distinct program",
+		rule:        "activation x shape x {input is a leaf, input is the interior tensor x.Scale(3)} x parameter (slopes, every Softmax dim), z = act(x)*g, BackPropagate(z); gradient of the input (and of the leaf upstream) compared with the derivative of the activation's definition; at exactly 0 Relu/LeakyRelu accept any value between the one-sided derivatives; Softmax closed form checked by TLC; Softmax cases carry the asis expectation of finding D2; distinct = distinct program",
 		assumptions: []string{"known finding D2 reaches this property through the expanding Div inside Softmax (known_findings.json)"},
 	}))
 	register("C16", "exploration", symCheck(symSpec{
 		module: "Gen_C16", partsQ: 4, partsT: 16, assignQ: 8, assignT: 20,
-		rule: "batch, features, outputs in 1..3 (1..4) x 5 subsets of tracked {W, B, x}; layer built by NewFC, parameters replaced through the Weights() pointers, Forward, z = y*g, BackPropagate(z); values and gradients compared with y[b][o] = W[o]*sum_d x[b][d] + B[o] and its derivatives (distinct symbols everywhere); rejected input ranks; batch > 1 carries the asis expectation of finding D2 for W and B; distinct = distinct (sizes, tracked subset)",
+		rule:        "batch, features, outputs in 1..3 (1..4) x 5 subsets of tracked {W, B, x}; layer built by NewFC, parameters replaced through the Weights() pointers, Forward, z = y*g, BackPropagate(z); values and gradients compared with y[b][o] = W[o]*sum_d x[b][d] + B[o] and its derivatives (distinct symbols everywhere); rejected input ranks; batch > 1 carries the asis expectation of finding D2 for W and B; distinct = distinct (sizes, tracked subset)",
 		assumptions: []string{"known finding D2: W and B are expanded over the batch (known_findings.json)"},
 	}))
 	register("C17", "exploration", symCheck(symSpec{
